@@ -8,6 +8,7 @@ CHECKS = {
     'C12': ('cycles_check', 'C12'),
     'C13': ('cycles_check', 'C13'),
     'C16': ('maps_check', None),
+    'C02': ('lockstep_check', None),
     'C09': ('phase_check', None),
     'C19': ('layout_check', None),
     'C14': ('cyclestats_check', None),
